@@ -796,3 +796,57 @@ def _subst_expr(e, old, new):
     if not isinstance(e, tuple):
         return e
     return tuple(_subst_expr(x, old, new) if isinstance(x, tuple) else x for x in e)
+
+
+def _namesake_sources(e, names):
+    """Which of `names` the expression is built from: field reads / getters applied directly to a parameter or variable
+    (`config.select_timeout`, `from.start()`), or a bare parameter / variable of that name."""
+    out = set()
+    if e[0] in ("param", "capture", "var") and e[1] in names:
+        out.add(e[1])
+    for s_ in expr_walk(e):
+        if s_[0] == "field" and s_[2] in names and s_[1][0] in ("param", "capture", "var"):
+            out.add(s_[2])
+        if s_[0] == "call" and len(s_[2]) == 1 and s_[2][0][0] in ("param", "capture", "var") and s_[1].rsplit("::", 1)[-1] in names:
+            out.add(s_[1].rsplit("::", 1)[-1])
+    return out
+
+
+NAMESAKE_EXC = {
+    # target struct, field : reason
+    ("BinaryInput", "value"): "the state of a binary point travels in bit 7 of its flag octet",
+    ("BinaryOutputStatus", "value"): "the state of a binary point travels in bit 7 of its flag octet",
+    ("DoubleBitBinaryInput", "value"): "the state of a double-bit point travels in bits 6-7 of its flag octet",
+}
+
+
+def namesake_plumbing(ctx, prog, path_regex, min_sites, label):
+    """Every struct built (outside tests) in bodies matching path_regex that fills a field from a like-named field / getter /
+    parameter of its inputs fills EACH such field from its own namesake: `select_timeout: config.confirm_timeout` type-checks
+    (both are Timeouts) and silently swaps two settings."""
+    r = re.compile(path_regex)
+    n = 0
+    for bd in prog.bodies.values():
+        if not r.search(bd.path) or "::test" in bd.path:
+            continue
+        sym = None
+        for b, si, st in bd.assigns():
+            rv = st.rv
+            if rv["k"] != "agg" or rv.get("ak") != "struct" or len(rv["fields"]) < 2:
+                continue
+            sym = sym or ctx.sym(bd)
+            e = sym.rvalue_expr(rv)
+            fs = set(rv["fields"])
+            tname = rv["adt"].split("::")[-1]
+            for fname, fe in e[3]:
+                m = _namesake_sources(fe, fs)
+                if not m:
+                    continue
+                n += 1
+                if fname not in m and (tname, fname) in NAMESAKE_EXC:
+                    ctx.ok("%s@%s:%s.%s" % (label, short(bd.path), tname, fname), "listed exception: " + NAMESAKE_EXC[(tname, fname)], bd.where(b.idx))
+                    continue
+                ctx.check(fname in m, "%s@%s:%s.%s" % (label, short(bd.path), tname, fname), "%s <- %s" % (fname, expr_str(fe)[:60]), bd.where(b.idx), bad_detail="field `%s` of %s is filled from `%s` (%s), not from its namesake" % (fname, tname, ",".join(sorted(m)), expr_str(fe)[:80]))
+    if n < min_sites:
+        raise AnchorError("%s: %d namesake field initialisations (expected >= %d)" % (label, n, min_sites))
+    return n
